@@ -936,6 +936,14 @@ func oraclePack(c *PackCase, jr *JobResult) []Problem {
 					kind = "D21"
 				} else if ed != nil && ee != nil {
 					renamed := (strings.TrimSuffix(ed.Name, "/") != ed.Rel && !ed.conv()) || (strings.TrimSuffix(ee.Name, "/") != ee.Rel && !ee.conv())
+					// an entry whose name the overlay conversion changed says nothing by its name; its include does
+					for _, x := range []*pkExp{ed, ee} {
+						if x.conv() && x.Inc >= 0 && x.Inc < len(ref.includes) {
+							if _, ok := c.Rebase[ref.includes[x.Inc]]; ok {
+								renamed = true
+							}
+						}
+					}
 					switch {
 					case renamed && (ee.Inc != ed.Inc || !pkProperDescendant(ee.Clean, ed.Clean)):
 						// the rebase map moved the names of one include among the names of another
